@@ -206,6 +206,7 @@ SaveLoad(g, fmt, withModel) ==
   /\ gAct' = [op |-> "SaveLoad", g |-> g, fmt |-> fmt, withModel |-> withModel, off |-> gNextH, res |-> "ok"]
   /\ gNextH' = gNextH + 2000 /\ UNCHANGED mvars
 \* in-place mutation of per-node data (C14 independence)
+TouchKinds == {"tags", "extras", "ttc", "label"}       \* slices may restrict the in-place mutations explored
 Touch(g, h, what) ==
   /\ gS[g].exists /\ h \in NodeHs(gS[g])
   /\ LET k == CHOOSE j \in DOMAIN gS[g].nodes : gS[g].nodes[j].h = h IN
@@ -233,7 +234,7 @@ GraphNext ==
   \/ On("Undo") /\ \E g \in Slots : \E a \in AtkHs(gS[g]), h \in NodeHs(gS[g]), sd \in {"attacker", "node"} : Undo(g, a, h, sd)
   \/ On("DeepCopy") /\ DeepCopy
   \/ On("SaveLoad") /\ \E fmt \in {"json", "yml"}, wm \in BOOLEAN : SaveLoad("main", fmt, wm)
-  \/ On("Touch") /\ \E g \in Slots : \E h \in NodeHs(gS[g]), w \in {"tags", "extras", "ttc", "label"} : Touch(g, h, w)
+  \/ On("Touch") /\ \E g \in Slots : \E h \in NodeHs(gS[g]), w \in TouchKinds : Touch(g, h, w)
 ModelStep(UsePolicy) == NextP(UsePolicy) /\ UNCHANGED gvars /\ ~gS["main"].exists      \* the model is built first
 GNext == GraphNext \/ ModelStep(TRUE)
 GSpecFull == GInit /\ [][GNext]_allvars
